@@ -27,6 +27,7 @@
 import Gobptree.Proofs.ConcReach
 import Gobptree.Proofs.ConcRank
 import Gobptree.Proofs.CSFinal
+import Gobptree.Proofs.CProgress
 
 namespace Gobptree.Conc
 open Gobptree
@@ -58,6 +59,31 @@ theorem C06_no_deadlock (P : Params K) (tree : Tree K V) (progs : List (List (CO
     (hfin : FinishedClean c) (hu : c.unfinished = true) : c.enabledSet ≠ [] :=
   let hinv := reachable_cinv P tree progs ht ho hp hd c hr
   ranked_not_deadlocked (posRank c.tree) c hinv.s.owner (sinv_ranked c hinv.s) hfin hu
+
+/-- **C06: an operation takes boundedly many of its own steps** (no retry loops). Once an
+    operation has been granted `rootMutex` (or any lock), it finishes within `3·depth + 6` further
+    steps of its own thread, on EVERY schedule and whatever the other threads do in between
+    (`depth` = height of the tree when counting starts; `ts.count j` = number of steps of thread
+    `j` in the schedule `ts`).  Together with `C06_no_deadlock` (some thread is always enabled)
+    and fairness of the scheduler (assumed) every operation eventually returns. -/
+theorem C06_bounded_own_steps (P : Params K) (tree : Tree K V) (progs : List (List (COp K V)))
+    (ht : TreeOk none tree) (ho : tree.order = P.order) (hp : PadOk P) (hd : Disciplined progs)
+    (c : Config K V) (hr : Reachable (Config.init P tree progs) c)
+    (j : Nat) (ts : List Nat) (c' : Config K V) (hrun : c.run ts = (c', none))
+    (b b' : Thread K V) (hb : c.threads[j]? = some b) (hb' : c'.threads[j]? = some b')
+    (hnt : parkWant b.park ≠ some Lk.tree) (hns : b.park ≠ .start) (hpc : b'.pc = b.pc) (hnf : b'.park ≠ .finished) :
+    ts.count j ≤ 3 * c.tree.depth + 6 :=
+  own_steps_le j ts c c' (reachable_cinv P tree progs ht ho hp hd c hr) hrun b b' hb hb' hnt hns hpc hnf
+
+/-- **C06: every own step makes progress.** A step of a thread inside an operation either
+    completes the operation or strictly decreases the measure `opMeasure` (height-based). -/
+theorem C06_own_step_progress (P : Params K) (tree : Tree K V) (progs : List (List (COp K V)))
+    (ht : TreeOk none tree) (ho : tree.order = P.order) (hp : PadOk P) (hd : Disciplined progs)
+    (c c' : Config K V) (hr : Reachable (Config.init P tree progs) c) (t : Nat) (hstep : c.step t = some c')
+    (th th' : Thread K V) (hth : c.threads[t]? = some th) (hth' : c'.threads[t]? = some th')
+    (hps : th.park ≠ .start) :
+    th.pc < th'.pc ∨ th'.park = .finished ∨ opMeasure c'.tree th'.park < opMeasure c.tree th.park :=
+  own_step_progress c c' t hstep (reachable_cinv P tree progs ht ho hp hd c hr) th th' hth hth' hps
 
 /-- the hypotheses are satisfiable: a fresh tree of order 4 satisfies the structural
     invariant, and a program mixing point operations with a cursor session is disciplined -/
@@ -156,3 +182,5 @@ end Gobptree.Conc
 #print axioms Gobptree.Conc.C06_no_panic
 #print axioms Gobptree.Conc.C06_reachable_ranked
 #print axioms Gobptree.Conc.C06_no_deadlock
+#print axioms Gobptree.Conc.C06_bounded_own_steps
+#print axioms Gobptree.Conc.C06_own_step_progress
